@@ -75,11 +75,31 @@ def run(tier, seed, replay):
         sp["what"] = ["strings"]
         specs.append(sp)
         plan.append({"k%d" % i: c for i, c in enumerate(ch)})
+    # the same strings as service arguments, call arguments, field values and decorator arguments. A failing parameter ends the run before
+    # the services are compiled (and a failing service before the decorators), so these configurations have valid parameters only and
+    # carry their candidates in ONE of the two places
+    argplan = []
+    pat_cands = [c for c in cands if "%" in c and not c.startswith(("@", "!", "$"))]
+    r.shuffle(pat_cands)
+    pat_cands = pat_cands[: (160 if tier == "quick" else 4000)] + ["%a%", "x%a%y", "%%", "%a.b-c_d%%a%", "%env(\"H\")%", "%", "%a", "a%", "%a b%", "%nofn()%", "%env(%"]
+    for a in range(0, len(pat_cands), 20):
+        ch = pat_cands[a:a + 20]
+        for where in ("service", "decorator"):
+            cfg = {"parameters": {"a": 1, "a.b-c_d": "v"}, "services": {"s": {"constructor": "NewA", "tags": ["t"]}}}
+            if where == "service":
+                cfg["services"]["s"].update({"arguments": ch[:8], "calls": [["SetX", ch[8:14]]], "fields": {"F%d" % i: c for i, c in enumerate(ch[14:])}})
+            else:
+                cfg["decorators"] = [{"tag": "t", "decorator": "Decorate", "arguments": ch}]
+            sp = common.mk_spec(len(specs), [cfg], flags={"ignore_params": True, "ignore_services": True})
+            sp["what"] = ["strings-as-%s-arguments" % where]
+            specs.append(sp)
+            plan.append({})
+            argplan.append((len(specs) - 1, where, ch))
     for c in fn_cands:
         sp = common.mk_spec(len(specs), [{"parameters": {"k0": c}}], flags={"ignore_params": True}, keep_out=True)
         sp["what"] = ["function-token"]
         specs.append(sp)
-        plan.append({})
+        plan.append({"k0": c} if classify(c) is None or True else {})
     if replay:
         rp = json.load(open(replay))["replay"]
         specs = [dict(rp, id="0", dump=True, build_info="bi")]
@@ -115,9 +135,36 @@ def run(tier, seed, replay):
                               dict(common.slim(sp), candidate=cand, expected=want, reported=got))
             if want is not None:
                 nontrivial.add(cand)
+    # verdicts in the argument positions: the configuration is rejected in the step that compiles that position iff one of its candidates is
+    # not a well-formed pattern, and every ill-formed candidate is named there
+    dist["argument_positions"] = 0
+    for k, where, ch in argplan:
+        ob, sp = obs[k], specs[k]
+        errs = ob.get("errors") or []
+        step = "compiler.StepCompileServices" if where == "service" else "compiler.StepCompileDecorators"
+        mine = [e for e in errs if e.startswith(step)]
+        bad = [c for c in ch if classify(c) is not None]
+        dist["argument_positions"] += len(ch)
+        evals += len(ch)
+        if any(not e.startswith(step) for e in errs):
+            out.broke("harness: a C03 argument configuration fails elsewhere", {"errors": errs[:3], "files": sp["files"]})
+            continue
+        import re as _re3
+        if where == "decorator":
+            named = {int(m.group(1)) for e in mine for m in [_re3.search(r"args: (\d+): ", e)] if m}
+            want_idx = {i for i, c in enumerate(ch) if classify(c) is not None}
+        else:
+            # arguments by index, call arguments by (call, index), fields by name
+            named = {m.group(1) for e in mine for m in [_re3.search(r'"s": (calls: \d+: args: \d+|args: \d+|fields: "F\d+"):', e)] if m}
+            want_idx = {"args: %d" % i for i, c in enumerate(ch[:8]) if classify(c) is not None} | {"calls: 0: args: %d" % i for i, c in enumerate(ch[8:14]) if classify(c) is not None} | \
+                       {"fields: \"F%d\"" % i for i, c in enumerate(ch[14:]) if classify(c) is not None}
+        if named != want_idx:
+            out.violation("pattern-verdict-as-%s-argument" % where, "ill-formed patterns stand at %s, %s names %s: %s" % (sorted(map(str, want_idx))[:6], step, sorted(map(str, named))[:6], mine[:3]),
+                          dict(common.slim(sp, ob), ill_formed=bad))
     # %+q quoting: Base/Quote.v against Go's fmt / strconv.Unquote on the same strings (literals and names travel through it)
     import subprocess, os
-    qs = [c for c in cands if c][:3000] + ["\xff\xfe", "a\x00b", "퟿", "\U0010ffff"]
+    qpool = [c for c in cands if c]
+    qs = qpool[:1500] + random.Random("%s/c03q" % seed).sample(qpool[1500:], min(1500, max(0, len(qpool) - 1500))) + ["\xff\xfe", "a\x00b", "퟿", "\U0010ffff"]
     qb = [c.encode("utf-8", "surrogatepass") if isinstance(c, str) else c for c in qs] + [b"\xff\xfe\xfd", b"\xc3", b"\xe2\x9c", b"\xf0\x9f\x98", b"\xed\xa0\x80", b"\xc0\xaf"]
     p = subprocess.run([os.path.join(tooldir, "gxtool"), "quote"], input="\n".join(b.hex() for b in qb) + "\n", stdout=subprocess.PIPE, text=True, env=build.GOENV)
     real_q = [bytes.fromhex(l.split()[0]) for l in p.stdout.splitlines()]
@@ -232,8 +279,12 @@ def run(tier, seed, replay):
             for (tok, (kind, val)), o, line in zip(ENVT, eh, erl[0]):
                 dist["env_table"] += 1
                 ok = (kind == "E" and line.startswith("E(")) or (kind == "S" and line == "S(%s)" % _rt.esc(val)) or (kind == "I" and line == "I(int,%s)" % val)
-                if kind == "E" and ok and "todo" not in tok and tok.strip("%").split("(")[0] not in line and "env" not in line:
-                    ok = False      # a failing function yields an error naming the token
+                if kind == "E" and ok:
+                    # a failing function yields an error naming the token: the text of (one of) the pattern's function chunks occurs in it
+                    import re as _re2
+                    toks = _re2.findall(r"%[A-Za-z]+\([^%]*\)%", tok)
+                    if toks and not any(_rt.esc(t_) in line for t_ in toks):
+                        ok = False
                 if not ok:
                     out.violation("env-table:%s" % tok[:40], "GetParam of %r returns %s, documented: %s" % (tok, line[:200], "an error" if kind == "E" else ("the string %r" % val if kind == "S" else "the int " + val)),
                                   dict(common.slim(esp, eobs[0]), history=[o]))
